@@ -73,7 +73,9 @@ def write_inputs(run, d, use_dump, nbsearch=None):
             f.write(" <nbsearch>%s</nbsearch>\n" % nbsearch)
         for it in run["inter"]:
             den = it["den"]
-            mx = it["mq"] + (it["n"] - 1) * it["sq"]
+            # families 8/9 give the range and step as written by the user (not a multiple of the step)
+            mx = it.get("umaxq", it["mq"] + (it["n"] - 1) * it["sq"])
+            ust = it.get("usq", it["sq"])
             dec = it["mq"] + (it["decoy"] - 1) * it["sq"]
             grp = "<inverse><imc><group>%s</group></imc></inverse>" % it["group"]
             if it["kind"] in ("nb", "3b"):
@@ -84,14 +86,14 @@ def write_inputs(run, d, use_dump, nbsearch=None):
                     f.write("<threebody>1</threebody><cut>%s</cut>" % q2real(it["cutq"]))
                 if run["intra"]:
                     f.write("<min>%s</min><max>%s</max><max_intra>%s</max_intra><step>%s</step>" % (
-                        q2real(it["mq"], den), q2real(dec, den), q2real(mx, den), q2real(it["sq"], den)))
+                        q2real(it["mq"], den), q2real(dec, den), q2real(mx, den), q2real(ust, den)))
                 else:
                     f.write("<min>%s</min><max>%s</max><max_intra>%s</max_intra><step>%s</step>" % (
-                        q2real(it["mq"], den), q2real(mx, den), q2real(dec, den), q2real(it["sq"], den)))
+                        q2real(it["mq"], den), q2real(mx, den), q2real(dec, den), q2real(ust, den)))
                 f.write(grp + "</non-bonded>\n")
             else:
                 f.write(" <bonded><name>%s</name><min>%s</min><max>%s</max><step>%s</step>%s</bonded>\n" % (
-                    it["name"], q2real(it["mq"], den), q2real(mx, den), q2real(it["sq"], den), grp))
+                    it["name"], q2real(it["mq"], den), q2real(mx, den), q2real(ust, den), grp))
         f.write("</cg>\n")
     if use_dump:
         with open(os.path.join(d, "traj.dump"), "w") as f:
@@ -312,6 +314,17 @@ def compare(ctx, run, d, rc, out, tgts):
     return bad
 
 
+def compare_any(ctx, run, d, rc, out, tgts):
+    """compare(); a run of a range that is not a multiple of the step (family 8) may agree with either of the two
+    admissible bin layouts: its record carries the other reading (family 9, same inputs) as run["alt"]"""
+    bad = compare(ctx, run, d, rc, out, tgts)
+    if bad and run.get("alt"):
+        if not compare(ctx, run["alt"], d, rc, out, tgts):
+            return []
+        return [("noncommensurate:" + k, t + " (and the stretched-layout reading does not fit either)") for k, t in bad]
+    return bad
+
+
 def slim(run, cmd, idx):
     r = dict(run)
     r["cmd"] = cmd[1:]
@@ -363,13 +376,26 @@ def run(ctx):
         for s0 in range(seed0, seed0 + nseed, chunk):
             ns = min(chunk, seed0 + nseed - s0)
             res = vlib.tlc("statimc", "MCStat", cfg="MCStat.cfg", timeout=2400,
-                           env={"C04_KINDS": 1234567 if s0 == seed0 else 123467, "C04_SEED0": s0, "C04_NSEED": ns,
+                           env={"C04_KINDS": 123456789 if s0 == seed0 else 12346789, "C04_SEED0": s0, "C04_NSEED": ns,
                                 "C04_WIDE": 0 if quick else 1})
             vlib.tlc_must_hold(res, "StatImc: ScenarioOK (incl. vacuity guards), RunningMean, GmcSymmetric, BlockIndependent, FinalIsFresh")
             ctx.add_tlc("MCStat seeds %d..%d" % (s0, s0 + ns - 1), res, constants={"Blocks": [0, 1, 2, 3] + ([] if quick else [4]), "Firsts": [0, 2, 9] if quick else [0, 1, 2, 3, 9]})
             runs += res.records
         if not runs:
             raise vlib.InfraError("TLC exported no runs")
+        # family 9 = the second admissible reading of the inputs of family 8: attach, do not run twice
+        okey = lambda r: (r["seed"], r["first"], r["block"], r["nframes"], r["err"])
+        alt = {okey(r): r for r in runs if r["kind"] == 9}
+        runs = [r for r in runs if r["kind"] != 9]
+        for r in runs:
+            if r["kind"] == 8:
+                if okey(r) not in alt:
+                    raise vlib.InfraError("no family-9 partner for %s" % (okey(r),))
+                a = alt[okey(r)]
+                if [(x["umaxq"], x["usq"], x["mq"]) for x in a["inter"]] != [(x["umaxq"], x["usq"], x["mq"]) for x in r["inter"]] \
+                        or a["frames"] != r["frames"]:
+                    raise vlib.InfraError("families 8 and 9 differ in their inputs")
+                r["alt"] = a
         runs.sort(key=lambda r: (r["kind"], r["seed"], r["first"], r["block"], r["nframes"]))
 
     def work(a):
@@ -379,18 +405,18 @@ def run(ctx):
     with ThreadPoolExecutor(max_workers=vlib.NCPU) as ex:
         outs = list(ex.map(work, list(enumerate(runs))))
 
-    kinds = {1: "same", 2: "two", 3: "mol", 4: "3b", 5: "probe", 6: "tric", 7: "chain"}
+    kinds = {1: "same", 2: "two", 3: "mol", 4: "3b", 5: "probe", 6: "tric", 7: "chain", 8: "nc"}
     for i, (r, (d, cmd, rc, out, tgts)) in enumerate(zip(runs, outs)):
         ctx.traces += 1
         if r["nframes"] > 1 or r["block"]:
             ctx.nontriv((r["kind"], r["seed"], r["first"], r["block"], r["nframes"]))
-        bad = compare(ctx, r, d, rc, out, tgts)
+        bad = compare_any(ctx, r, d, rc, out, tgts)
         if bad:
             # re-run once from the recorded artefact before reporting
             ra = dict(r)
             ra["idx"] = r.get("idx", i)
             d2, cmd2, rc2, out2, tg2 = execute(exe, base, 100000 + i, ra)
-            bad2 = compare(ctx, r, d2, rc2, out2, tg2)
+            bad2 = compare_any(ctx, r, d2, rc2, out2, tg2)
             # a confirmed mismatch of a multi-threaded run is classified by a single-threaded run of the same
             # input: if that one agrees with the model the failing class is "threads:<key>"
             single = None
@@ -399,7 +425,7 @@ def run(ctx):
                 r1["nt"] = 1
                 r1["idx"] = i
                 d3, cmd3, rc3, out3, tg3 = execute(exe, base, 200000 + i, r1)
-                single = {k3 for k3, _ in compare(ctx, r1, d3, rc3, out3, tg3)}
+                single = {k3 for k3, _ in compare_any(ctx, r1, d3, rc3, out3, tg3)}
             for key, text in bad:
                 if any(k2 == key for k2, _ in bad2):
                     k = key if single is None or key in single else "threads:" + key
@@ -428,6 +454,9 @@ def run(ctx):
         "triclinic_box": sum(1 for r in runs if any(len(fr["box"]) == 6 for fr in r["frames"]) and r["files"]),
         "include_intra": sum(1 for r in runs if r["intra"] and r["files"]),
         "block_output": sum(1 for r in runs if r["block"] and r["files"]),
+        "range_not_multiple_of_step": sum(1 for r in runs if r.get("alt") and r["files"]),
+        "pair_in_outer_quarter_of_last_bin": sum(1 for r in runs if r.get("outer") and r["files"]),
+        "two_bin_range": sum(1 for r in runs if r["files"] and any(it["n"] == 2 for it in r["inter"])),
     }
     ctx.extra["layer_runs"] = layers
     if not getattr(ctx, "replay", None):
